@@ -845,6 +845,101 @@ def j_c13(case, resps):
     return out
 
 
+def _layout(group):
+    els = group[2:].split(",")
+    E = [gen.GROUPS[e] for e in els]
+    return els, E
+
+
+def _offs(sizes):
+    o, acc = [], 0
+    for x in sizes:
+        o.append(acc)
+        acc += x
+    return o
+
+
+def j_c11(case, resps):
+    """a bundle member = the elements' members on their slices, placed at the elements' offsets;
+    Jacobians block diagonal with exact zeros elsewhere (implementation against implementation,
+    bit for bit except where the bundle-level code goes through a large matrix product)"""
+    grp = case["group"]
+    els, E = _layout(grp)
+    op, kind = case["op"], case["shape"]       # shape: how outputs are laid out
+    out = []
+    vb, eb = parse(resps[0])
+    line = case["reqs"][0]
+    subs = [parse(r) for r in resps[1:]]
+    if vb is None:
+        if all(v is not None for v, _ in subs):
+            out.append(V("C11", grp, op, "status", case["tags"], line, "bundle raised (%s) but every element succeeds" % resps[0][:40], float("inf"), 0))
+        return out
+    if any(v is None for v, _ in subs):
+        return out
+    big = gen.GROUPS[grp]
+    D = big["dof"]
+    loose = D >= 8 and op in ("lplus", "lminus", "bracket")
+
+    def close(a, b, scale):
+        if a == b or (a == 0 and b == 0):
+            return True
+        return loose and abs(a - b) <= 1e-12 * max(1.0, scale)
+
+    def check_vec(name, got, sizes_key, parts):
+        sizes = [e[sizes_key] for e in E]
+        offs = _offs(sizes)
+        for k, (o, n) in enumerate(zip(offs, sizes)):
+            sc = max([abs(x) for x in parts[k]] + [1.0])
+            if not all(close(a, b, sc) for a, b in zip(got[o:o + n], parts[k])):
+                out.append(V("C11", grp, op, name, case["tags"], line, "%s of the bundle differs from element %d (%s) placed at offset %d" % (name, k, els[k], o), float("inf"), 0))
+                return
+
+    def check_mat(name, got, rkey, ckey, parts):
+        rs, cs = [e[rkey] for e in E], [e[ckey] for e in E]
+        ro, co = _offs(rs), _offs(cs)
+        R_, C_ = sum(rs), sum(cs)
+        sc = max([abs(x) for p in parts for x in p] + [1.0])
+        for i in range(R_):
+            for j in range(C_):
+                x = got[i * C_ + j]
+                blk = None
+                for k in range(len(E)):
+                    if ro[k] <= i < ro[k] + rs[k] and co[k] <= j < co[k] + cs[k]:
+                        blk = k
+                if blk is None:
+                    if x != 0:
+                        out.append(V("C11", grp, op, name, case["tags"], line, "%s: entry (%d,%d) outside the diagonal blocks is %r, not an exact zero" % (name, i, j, x), abs(x), 0))
+                        return
+                else:
+                    want = parts[blk][(i - ro[blk]) * cs[blk] + (j - co[blk])]
+                    if not close(x, want, sc):
+                        out.append(V("C11", grp, op, name, case["tags"], line, "%s: block %d (%s) differs from the element's own result at (%d,%d)" % (name, blk, els[blk], i, j), abs(x - want), 0))
+                        return
+
+    # split bundle output and the elements' outputs according to the shape
+    vkey, jshapes = kind
+    vs = sum(e[vkey] for e in E) if vkey else None
+    k = 0
+    if vkey in ("repsize", "dof", "dim"):
+        parts = [v[:e[vkey]] for (v, _), e in zip(subs, E)]
+        check_vec("value", vb[:vs], vkey, parts)
+        k = vs
+        eo = [e[vkey] for e in E]
+    else:
+        eo = [0] * len(E)
+    for jn, (rk, ck) in enumerate(jshapes):
+        R_, C_ = sum(e[rk] for e in E), sum(e[ck] for e in E)
+        got = vb[k:k + R_ * C_]
+        parts = []
+        for i, ((v, _), e) in enumerate(zip(subs, E)):
+            n = e[rk] * e[ck]
+            parts.append(v[eo[i]:eo[i] + n])
+            eo[i] += n
+        check_mat("J%d" % jn if vkey in ("repsize", "dof", "dim") else "matrix", got, rk, ck, parts)
+        k += R_ * C_
+    return out
+
+
 def _binom(n, k):
     return math.comb(n, k)
 
@@ -937,7 +1032,7 @@ def j_c17g(case, resps):
 
 STAGE2 = {"logexp": s2_logexp, "c04": s2_c04, "c16": s2_c16}
 JUDGES = {"c07": j_c07, "c04": j_c04, "c15": j_c15, "c15phi": j_c15phi, "c16": j_c16, "c16empty": j_c16empty,
-          "c17": j_c17, "c17g": j_c17g, "c18": j_c18, "c18t": j_c18t, "c13": j_c13, "c01": j_c01, "c02": j_c02, "c03a": j_c03_explog, "c03b": j_c03_logexp2,
+          "c17": j_c17, "c17g": j_c17g, "c18": j_c18, "c18t": j_c18t, "c13": j_c13, "c11": j_c11, "c01": j_c01, "c02": j_c02, "c03a": j_c03_explog, "c03b": j_c03_logexp2,
           "c05": j_c05, "c06": j_c06, "c06adj": j_c06_adj}
 
 
@@ -1101,6 +1196,50 @@ def cases_algo(prop, r, group, n, exe):
                            ops=ops, eps=gen.EPS, identical=identical, tags=["n%d" % cnt, "radius:%g" % radius] + tags))
         cs.append(dict(prop=prop, group=group, kind="c16empty", tags=["empty"],
                        reqs=[gen.req(dbg, "o", group, op, 0, [gen.EPS], [20]) for op in ops]))
+    elif prop == "C11":
+        els = group[2:].split(",")
+        E = [gen.GROUPS[e] for e in els]
+        G = gen.GROUPS[group]
+
+        def split(vec, key):
+            o, res = 0, []
+            for e in E:
+                res.append(vec[o:o + e[key]])
+                o += e[key]
+            return res
+        OPS = {"exp": ("T", ("repsize", [("dof", "dof")])), "log": ("G", ("dof", [("dof", "dof")])),
+               "inverse": ("G", ("repsize", [("dof", "dof")])), "compose": ("GG", ("repsize", [("dof", "dof")] * 2)),
+               "between": ("GG", ("repsize", [("dof", "dof")] * 2)), "rplus": ("GT", ("repsize", [("dof", "dof")] * 2)),
+               "lplus": ("GT", ("repsize", [("dof", "dof")] * 2)), "rminus": ("GG", ("dof", [("dof", "dof")] * 2)),
+               "lminus": ("GG", ("dof", [("dof", "dof")] * 2)), "act": ("GP", ("dim", [("dim", "dof"), ("dim", "dim")])),
+               "adj": ("G", (None, [("dof", "dof")])), "rjac": ("T", (None, [("dof", "dof")])), "ljac": ("T", (None, [("dof", "dof")])),
+               "rjacinv": ("T", (None, [("dof", "dof")])), "ljacinv": ("T", (None, [("dof", "dof")])),
+               "smallAdj": ("T", (None, [("dof", "dof")])), "hat": ("T", (None, [("alg", "alg")])),
+               "transform": ("G", (None, [("tsize", "tsize")])), "innerWeights": ("", (None, [("dof", "dof")])),
+               "bracket": ("TT", ("dof", []))}
+        for e, nm in zip(E, els):
+            e.setdefault("alg", l1.ALG[nm])
+        for _ in range(n):
+            op = r.choice(list(OPS))
+            sig, shape = OPS[op]
+            a, tags, parts = [], [op], []
+            for ch in sig:
+                if ch == "G":
+                    v, t = gen.element(r, group, norm="exact")
+                    parts.append(split(v, "repsize"))
+                elif ch == "T":
+                    v, t = gen.tangent(r, group)
+                    parts.append(split(v, "dof"))
+                else:
+                    v, t = gen.point(r, group)
+                    parts.append(split(v, "dim"))
+                a += v
+                tags += t[:3]
+            nmask = {"exp": 1, "log": 1, "inverse": 1}.get(op, 3 if len(shape[1]) == 2 else 0)
+            reqs = [gen.req(dbg, "o", group, op, nmask, a)]
+            for i, nm in enumerate(els):
+                reqs.append(gen.req(dbg, "o", nm, op, nmask, [x for p in parts for x in p[i]]))
+            cs.append(dict(prop=prop, group=group, kind="c11", op=op, shape=shape, reqs=reqs, tags=tags))
     elif prop == "C13":
         reqs, plan = [], []
         lin = lambda k: [gen.pick(r, gen.LIN_STRATA, ["zero", "tiny", "unit", "large"])[1] * r.choice([-1, 1]) for _ in range(k)]
